@@ -10,19 +10,60 @@ Open Scope N_scope.
 Module HS := MV.C15.Spec.
 Module HP := MV.C15.ProofsHist.
 
-Lemma zle_trans : forall a b c : H.F ZF, H.fle ZF a b = true -> H.fle ZF b c = true -> H.fle ZF a c = true.
-Proof. cbn. intros a b c H1 H2. apply Z.leb_le in H1, H2. apply Z.leb_le. lia. Qed.
+(* ---- the extended numbers: a commutative monoid whose classes add as IEEE doubles do *)
+Lemma xadd_assoc a b c : xadd a (xadd b c) = xadd (xadd a b) c.
+Proof. destruct a, b, c. unfold xadd. cbn. f_equal; lia. Qed.
+Lemma xadd_comm a b : xadd a b = xadd b a.
+Proof. destruct a, b. unfold xadd. cbn. f_equal; lia. Qed.
+Lemma xadd_zero_l a : xadd xzero a = a.
+Proof. destruct a. unfold xadd. cbn. f_equal; lia. Qed.
+Lemma xadd_zero_r a : xadd a xzero = a.
+Proof. rewrite xadd_comm. apply xadd_zero_l. Qed.
 
-Lemma zsum_app a b : zsum (a ++ b) = (zsum a + zsum b)%Z.
-Proof. unfold zsum. induction a as [|x a IH]; cbn; [reflexivity|]. fold (zsum (a ++ b)) (zsum a) in *. unfold zsum in *. rewrite IH. lia. Qed.
-Lemma fold_add_zsum l : forall a, fold_left Z.add l a = (a + zsum l)%Z.
-Proof. induction l as [|x l IH]; intros a; cbn; [lia|]. rewrite IH. unfold zsum. cbn. lia. Qed.
+(* IEEE addition on the classes (finite + finite exact) *)
+Definition cadd (a b : xclass) : xclass :=
+  match a, b with
+  | CNaN, _ | _, CNaN => CNaN
+  | CPInf, CNInf | CNInf, CPInf => CNaN
+  | CPInf, _ | _, CPInf => CPInf
+  | CNInf, _ | _, CNInf => CNInf
+  | CFin x, CFin y => CFin (x + y)
+  end.
+Lemma nz_add a b : (a + b =? 0) = (a =? 0) && (b =? 0).
+Proof. destruct (N.eqb_spec a 0), (N.eqb_spec b 0), (N.eqb_spec (a + b) 0); cbn; auto; lia. Qed.
+Lemma cls_xadd a b : cls (xadd a b) = cadd (cls a) (cls b).
+Proof.
+  destruct a as [fa pa na ea], b as [fb pb nb eb]. unfold cls, xadd. cbn [x_fin x_pinf x_ninf x_nan]. rewrite !nz_add.
+  destruct (pa =? 0), (na =? 0), (ea =? 0), (pb =? 0), (nb =? 0), (eb =? 0); reflexivity.
+Qed.
+Lemma cls_xneg a : cls (xneg a) = match cls a with CNaN => CNaN | CPInf => CNInf | CNInf => CPInf | CFin z => CFin (- z) end.
+Proof.
+  destruct a as [fa pa na ea]. unfold cls, xneg. cbn [x_fin x_pinf x_ninf x_nan].
+  destruct (pa =? 0), (na =? 0), (ea =? 0); reflexivity.
+Qed.
+
+Lemma zle_trans : forall a b c : H.F ZF, H.fle ZF a b = true -> H.fle ZF b c = true -> H.fle ZF a c = true.
+Proof.
+  cbn [H.fle H.F ZF]. unfold xle. intros a b c. destruct (cls a), (cls b), (cls c); intros H1 H2; try discriminate; auto.
+  apply Z.leb_le in H1, H2. apply Z.leb_le. lia.
+Qed.
+
+Lemma zsum_app a b : xsum (a ++ b) = xadd (xsum a) (xsum b).
+Proof.
+  unfold xsum. induction a as [|x a IH]; cbn [app fold_right]; [rewrite xadd_zero_l; reflexivity|].
+  rewrite IH. apply xadd_assoc.
+Qed.
+Lemma fold_add_zsum l : forall a, fold_left xadd l a = xadd a (xsum l).
+Proof.
+  induction l as [|x l IH]; intros a; cbn [fold_left]; [unfold xsum; cbn [fold_right]; rewrite xadd_zero_r; reflexivity|].
+  rewrite IH. unfold xsum. cbn [fold_right]. rewrite xadd_assoc. reflexivity.
+Qed.
 Lemma fold_summ bag : forall n s,
-  fold_left (fun '(n, s) x => (n + 1, (s + x)%Z)) bag (n, s) = (n + N.of_nat (List.length bag), (s + zsum bag)%Z).
+  fold_left (fun '(n, s) x => (n + 1, xadd s x)) bag (n, s) = (n + N.of_nat (List.length bag), xadd s (xsum bag)).
 Proof.
   induction bag as [|x bag IH]; intros n s; cbn [fold_left List.length].
-  - f_equal; [lia|unfold zsum; cbn; lia].
-  - rewrite IH. f_equal; [lia|unfold zsum; cbn; lia].
+  - f_equal; [lia|unfold xsum; cbn [fold_right]; rewrite xadd_zero_r; reflexivity].
+  - rewrite IH. f_equal; [lia|unfold xsum; cbn [fold_right]; rewrite xadd_assoc; reflexivity].
 Qed.
 Lemma map_combine_map {A B C} (f : A * B -> C) (g : A -> B) l :
   map f (combine l (map g l)) = map (fun x => f (x, g x)) l.
@@ -53,7 +94,7 @@ Qed.
 
 Lemma fold_gau i k pre : key_at c i = Some k -> k_kind k = KG ->
   fold_left (p_gau c i) pre None = (if registered i k pre then Some (spec_gauge i pre) else None)
-  /\ (registered i k pre = false -> spec_gauge i pre = 0%Z).
+  /\ (registered i k pre = false -> spec_gauge i pre = xzero).
 Proof.
   intros Hi Hk. induction pre as [|o pre [IH1 IH2]] using rev_ind; [split; reflexivity|].
   snoc. fold (registered i k pre). rewrite IH1. unfold spec_gauge. rewrite fold_left_app. cbn [fold_left].
@@ -89,14 +130,14 @@ Proof.
 Qed.
 
 (* ---- histogram keys: drained ++ pending = recorded, and the distribution holds the drained ones *)
-Definition dclosed (k : key) (dr : list Z) (d : dist) : Prop :=
+Definition dclosed (k : key) (dr : list xnum) (d : dist) : Prop :=
   match H.get_distribution ZF (dbuilder_of c) (sname k) with
-  | Some b => exists h, d = DHist h /\ HP.hist_inv ZF b dr h /\ H.h_sum ZF h = zsum dr
-  | None => d = DSumm (N.of_nat (List.length dr)) (zsum dr)
+  | Some b => exists h, d = DHist h /\ HP.hist_inv ZF b dr h /\ H.h_sum ZF h = xsum dr
+  | None => d = DSumm (N.of_nat (List.length dr)) (xsum dr)
   end.
-Definition dstate (k : key) (dr : list Z) (e : option dist) : Prop :=
+Definition dstate (k : key) (dr : list xnum) (e : option dist) : Prop :=
   match e with None => dr = [] | Some d => dclosed k dr d end.
-Definition HR (i : N) (k : key) (pre : list op) (pe : option (list Z) * option dist) : Prop :=
+Definition HR (i : N) (k : key) (pre : list op) (pe : option (list xnum) * option dist) : Prop :=
   if registered i k pre
   then exists dr bag, fst pe = Some bag /\ dr ++ bag = records i pre /\ dstate k dr (snd pe)
   else pe = (None, None) /\ records i pre = [].
@@ -117,7 +158,8 @@ Proof.
   - apply andb_prop in Hb as [_ Hasc]. intros (h & -> & Hinv & Hsum).
     exists (H.record_many ZF h bag). split; [reflexivity|]. split.
     + apply HP.record_many_inv; auto. exact zle_trans.
-    + cbn. cbn in Hsum. rewrite Hsum, fold_add_zsum, zsum_app. lia.
+    + unfold H.record_many. cbn [H.h_sum]. change (H.fadd ZF) with xadd. change (H.fzero ZF) with xzero.
+      rewrite Hsum, fold_add_zsum, zsum_app, xadd_zero_l. reflexivity.
   - intros ->. cbn [record_samples]. rewrite fold_summ. rewrite app_length, Nat2N.inj_add, zsum_app. reflexivity.
 Qed.
 
@@ -257,8 +299,8 @@ Proof. apply run_spec. apply Inv_init. Qed.
 (* ---- accounting: after any history, recorded = counted in the distribution + pending *)
 Definition dist_count (e : option dist) : N :=
   match e with Some (DHist h) => H.h_count ZF h | Some (DSumm n _) => n | None => 0 end.
-Definition dist_sum (e : option dist) : Z :=
-  match e with Some (DHist h) => H.h_sum ZF h | Some (DSumm _ s) => s | None => 0%Z end.
+Definition dist_sum (e : option dist) : xnum :=
+  match e with Some (DHist h) => H.h_sum ZF h | Some (DSumm _ s) => s | None => xzero end.
 
 Lemma run_Inv h : forall pre s, Inv c pre s -> Inv c (pre ++ h) (fst (run c s h)).
 Proof.
@@ -269,7 +311,7 @@ Proof.
 Qed.
 
 Lemma dclosed_count k dr d : dclosed k dr d ->
-  dist_count (Some d) = N.of_nat (List.length dr) /\ dist_sum (Some d) = zsum dr.
+  dist_count (Some d) = N.of_nat (List.length dr) /\ dist_sum (Some d) = xsum dr.
 Proof.
   unfold dclosed. destruct (H.get_distribution ZF (dbuilder_of c) (sname k)).
   - intros (h & -> & (_ & Hc & _) & Hs). cbn. auto.
@@ -281,7 +323,7 @@ Theorem every_sample_once h i k : key_at c i = Some k -> k_kind k = KH ->
   let e := aget parts_eqb (parts c k) (dists s) in
   N.of_nat (List.length (records i h))
     = dist_count e + N.of_nat (List.length (dflt (aget N.eqb i (pend s)) []))
-  /\ zsum (records i h) = (dist_sum e + zsum (dflt (aget N.eqb i (pend s)) []))%Z.
+  /\ xsum (records i h) = xadd (dist_sum e) (xsum (dflt (aget N.eqb i (pend s)) [])).
 Proof.
   intros Hi Hk. cbn zeta. destruct (run_Inv h [] init (Inv_init c)) as (_ & _ & _ & Hh & _).
   cbn [app] in Hh. specialize (Hh i k Hi Hk). assert (HRr := fold_hist i k h Hi Hk). rewrite <- Hh in HRr.
@@ -289,7 +331,7 @@ Proof.
   - destruct HRr as (dr & bag & -> & <- & Hst). cbn [dflt]. rewrite app_length, Nat2N.inj_add, zsum_app.
     destruct (aget parts_eqb (parts c k) (dists (fst (run c init h)))) as [d|]; cbn [dstate] in Hst.
     + destruct (dclosed_count k dr d Hst) as [-> ->]. split; reflexivity.
-    + subst dr. cbn. split; reflexivity.
+    + subst dr. cbn [app List.length dist_count dist_sum]. change (xsum []) with xzero. rewrite !xadd_zero_l. split; reflexivity.
   - destruct HRr as [[= -> ->] ->]. cbn. split; reflexivity.
 Qed.
 
@@ -299,7 +341,7 @@ Theorem drained_count h o i k : key_at c i = Some k -> k_kind k = KH -> o = Rend
   let s := fst (run c init (h ++ [o])) in
   let e := aget parts_eqb (parts c k) (dists s) in
   aget N.eqb i (pend s) = Some [] /\
-  dist_count e = N.of_nat (List.length (records i h)) /\ dist_sum e = zsum (records i h).
+  dist_count e = N.of_nat (List.length (records i h)) /\ dist_sum e = xsum (records i h).
 Proof.
   intros Hi Hk Ho Hreg. cbn zeta. destruct (run_Inv (h ++ [o]) [] init (Inv_init c)) as (_ & _ & _ & Hh & _).
   cbn [app] in Hh. specialize (Hh i k Hi Hk). assert (Hd := hist_after_drain i k h o Hi Hk Ho).
